@@ -1,6 +1,6 @@
 """helpers shared by the per-property plugins"""
 import itertools
-from verif import Corr, run_cases, rle_compare, parse_rle_text, log
+from verif import Corr, run_cases, rle_compare, parse_rle_text, log, sh, HARNESS, DRIVER
 
 
 def hexs(cps):
@@ -40,3 +40,83 @@ def evaluate(corr, results, nontrivial=None, known=None, panic_is_violation=True
     # report the smallest failing cases first
     corr.spec_violations.sort(key=lambda x: (len(x[0]), x[0]))
     corr.disagreements.sort(key=lambda x: (len(x[0]), x[0]))
+
+
+def _first_diff(a_runs, b_runs):
+    """a_runs/b_runs: sorted lists of (start,end,value) -> first code point where they differ, with both values"""
+    def expand(runs):
+        d = {}
+        for s_, e_, v in runs:
+            d[(s_, e_)] = v
+        return runs
+    ia = ib = 0
+    pos = 0
+    A, B = a_runs, b_runs
+    while ia < len(A) or ib < len(B):
+        ra = A[ia] if ia < len(A) else None
+        rb = B[ib] if ib < len(B) else None
+        if ra is None or rb is None:
+            r = ra or rb
+            return (r[0], ra[2] if ra else '<absent>', rb[2] if rb else '<absent>')
+        lo = max(ra[0], rb[0])
+        if ra[0] != rb[0] and min(ra[0], rb[0]) >= pos:
+            # one of them starts earlier: the other is absent there
+            if ra[0] < rb[0] and ra[0] >= pos:
+                return (ra[0], ra[2], '<absent>')
+            if rb[0] < ra[0] and rb[0] >= pos:
+                return (rb[0], '<absent>', rb[2])
+        if ra[2] != rb[2]:
+            return (lo, ra[2], rb[2])
+        hi = min(ra[1], rb[1])
+        pos = hi + 1
+        if ra[1] == hi:
+            ia += 1
+        else:
+            A = A[:ia] + [(hi + 1, ra[1], ra[2])] + A[ia + 1:]
+        if rb[1] == hi:
+            ib += 1
+        else:
+            B = B[:ib] + [(hi + 1, rb[1], rb[2])] + B[ib + 1:]
+    return None
+
+
+def rle_check(ctx, corr, fns, spec_fns=()):
+    """exhaustive per-code-point comparison: implementation vs model for `fns`, implementation vs
+    independent specification for `spec_fns` (subset of fns).  Adds results to corr."""
+    impl = parse_rle_text(sh([HARNESS, 'rle'] + list(fns)).stdout)
+    model = parse_rle_text(sh([DRIVER, 'rle'] + list(fns)).stdout)
+    spec = parse_rle_text(sh([DRIVER, 'rle'] + ['spec_' + f for f in spec_fns]).stdout) if spec_fns else {}
+    for fn in fns:
+        runs = impl.get(fn, [])
+        n = sum(e - s_ + 1 for s_, e, _ in runs)
+        corr.evaluations += n
+        corr.count(f'rle:{fn}:code_points', n)
+        corr.count(f'rle:{fn}:runs', len(runs))
+        for v in {v for _, _, v in runs}:
+            corr.nontrivial.add(('rle', fn, v))
+        if runs != model.get(fn, []):
+            d = _first_diff(runs, model.get(fn, []))
+            corr.disagreements.append((f'rle|{fn}|{d[0]:04X}', d[1], d[2]))
+        if fn in spec_fns:
+            sr = spec.get('spec_' + fn, [])
+            if runs != sr:
+                d = _first_diff(runs, sr)
+                corr.spec_violations.append((f'rle|{fn}|{d[0]:04X}', d[1], f'VIOLATED:independent Unicode/IANA data says {d[2]}'))
+    corr.extra.setdefault('exhaustive_functions', []).extend(fns)
+    if not corr.samples and fns:
+        runs = impl.get(fns[0], [])
+        corr.samples = [{'function': fns[0], 'run': f'{s_:04X}..{e:04X}', 'value': v} for s_, e, v in runs[:6]]
+    return impl
+
+
+# ---- class representatives (chosen for behavioural relevance; all are checked against the dumps at run time) ----
+PLAIN = [0x61, 0xE9, 0x65E5, 0x20000]            # 1-, 2-, 3-, 4-byte letters, uncased or lowercase
+SPACES = [0x20, 0xA0, 0x2003, 0x3000]            # ASCII, 2-byte, 3-byte Zs (U+3000 also <wide>)
+CASED = [0x41, 0xC9, 0x130, 0x3A3, 0x1E9E, 0x2126, 0x212A, 0x1F88, 0x1C5, 0x10400, 0x13A0]
+WIDE = [0xFF21, 0xFF76, 0xFFE0, 0xFF9E, 0xFF41]
+COMPAT = [0xB5, 0x2460, 0xFB01, 0xA8, 0xFDFA, 0x2163]
+DECOMP = [0xC5, 0x212B, 0x1E9B, 0x301, 0x308, 0x323, 0x327, 0x1100, 0x1161, 0x11A8, 0xAC00]
+BIDI = {'L': 0x61, 'R': 0x5D0, 'AL': 0x627, 'AN': 0x661, 'EN': 0x31, 'ES': 0x2D, 'CS': 0x2C, 'ET': 0x25,
+        'ON': 0x21, 'BN': 0xAD, 'NSM': 0x5B0, 'B': 0x2029, 'S': 0x9, 'WS': 0x20}
+CTX = [0x200C, 0x200D, 0xB7, 0x375, 0x5F3, 0x5F4, 0x30FB, 0x660, 0x6F0, 0x94D, 0x6C, 0x3B1, 0x5D0, 0x3042,
+       0x30A2, 0x4E00, 0x628, 0x627, 0xA872, 0x64B]
